@@ -424,5 +424,87 @@ def replay_cmdloop(case):
     check_cmdloop(Ctx(PROPERTY, "cmdloop", "quick", 0, 0, 1), tuple(case))
 
 
+# ---------------------------------------------------------------- real server, real connected client, long lines
+LENGTHS = [0, 1, 79, 1000, 4090, 8185, 8188, 8189, 8190, 8192, 8200, 16384, 20000, 32768, 40000, 60000]
+
+
+def wire_cases(tier):
+    out = []
+    for i, n in enumerate(LENGTHS):
+        for shape in ("single", "multi_long_middle", "multi_long_last", "list_long_body"):
+            for enc in (("utf-8",) if tier == "quick" and i % 3 else ("utf-8", "latin-1")):
+                out.append((n, shape, enc, ["250", "257", "211"][i % 3]))
+    return out
+
+
+async def _wire(loop, case):
+    from vlib import harness
+    n, shape, enc, code = case
+    unit = "péth/" if enc == "latin-1" else "naïve ж ☃/"
+    long = (unit * (n // len(unit) + 1))[:n]
+    while len(long.encode(enc)) > n:  # lengths are byte lengths (asyncio's stream limit of 64 KiB per line is a precondition)
+        long = long[:len(long) - max(1, (len(long.encode(enc)) - n) // 3)]
+    lines = {"single": [long], "multi_long_middle": ["head", long, "tail"], "multi_long_last": ["head", "2nd", long],
+             "list_long_body": ["begin", " " + long, " short body", "end"]}[shape]
+    lst = shape == "list_long_body"
+    server = aioftp.Server(path_io_factory=aioftp.MemoryPathIO, encoding=enc)
+
+    async def xrep(connection, rest):
+        connection.response(code, lines if len(lines) > 1 else lines[0], lst)
+        return True
+
+    server.commands_mapping["xrep"] = xrep
+    await server.start(harness.HOST, harness.PORT)
+    c = aioftp.Client(path_io_factory=aioftp.MemoryPathIO, encoding=enc)
+    out = {}
+    try:
+        await c.connect(harness.HOST, harness.PORT)
+        await c.login()
+        try:
+            got_code, info = await c.command("XREP", code)
+            out["first"] = (str(got_code), strip_sep(info))
+        except Exception as e:  # noqa
+            out["first"] = ("EXC", repr(e)[:200])
+        try:
+            got_code, info = await c.command("PWD", "257")
+            out["next"] = (str(got_code), strip_sep(info))
+        except Exception as e:  # noqa
+            out["next"] = ("EXC", repr(e)[:200])
+    finally:
+        c.close()
+        await asyncio.wait_for(server.close(), 1000)
+    out["expected"] = (code, [x.rstrip() for x in lines])
+    return out
+
+
+def judge_wire(case, out):
+    n, shape, enc, code = case
+    if out["first"] != out["expected"]:
+        what = "raised" if out["first"][0] == "EXC" else "decoded_differently"
+        raise Violation(f"C06/wire/{what}/{shape}", dict(line_length=n, encoding=enc, code=code, got=(out["first"][0], [x[:60] for x in out["first"][1]] if out["first"][0] != "EXC" else out["first"][1]),
+                                                         expected_line_lengths=[len(x) for x in out["expected"][1]]))
+    if out["next"][0] != "257":
+        raise Violation(f"C06/wire/next_reply_not_decoded/{shape}", dict(line_length=n, encoding=enc, next=out["next"]))
+
+
+def part_wire(ctx):
+    from vlib import simnet
+    for case in wire_cases(ctx.tier)[ctx.shard::ctx.nshards]:
+        out = simnet.run(lambda loop: _wire(loop, case))
+        ctx.count(("wire",) + case, case[0] >= 1000, sample=dict(line_length=case[0], shape=case[1], encoding=case[2], code=case[3],
+                                                              decoded_lines=len(out["first"][1]) if out["first"][0] != "EXC" else None),
+                  classes=["wire_" + case[1], "wire_len_%d" % case[0]])
+        try:
+            judge_wire(case, out)
+        except Violation as v:
+            ctx.fail(v.sig, dict(kind="wire", case=list(case)), v.detail)
+
+
+def replay_wire(case):
+    from vlib import simnet
+    c = tuple(case["case"])
+    judge_wire(c, simnet.run(lambda loop: _wire(loop, c)))
+
+
 def plan(tier):
-    return [("roundtrip", 8), ("negative", 3), ("command", 2), ("cmdloop", 2), ("matches", 3)]
+    return [("roundtrip", 8), ("negative", 3), ("command", 2), ("cmdloop", 2), ("matches", 3), ("wire", 4)]
